@@ -370,7 +370,12 @@ class Exec:
                 if self._message_only_loop(st):
                     return [("fall", None, path)]
                 self.unsupported(st, f"loop #{ordn} without an invariant")
-            return h(self, st, path)
+            try:
+                return h(self, st, path)
+            except (KeyError, AttributeError, IndexError) as ex_:
+                # the sidecar invariant refers to something (a local, a field) this tree's loop does not have: the loop is
+                # outside what the contract can express here -> undecided, never a crash and never a violation
+                self.unsupported(st, f"loop #{ordn}: the sidecar invariant does not fit this loop ({type(ex_).__name__}: {ex_})")
         if isinstance(st, ast.Try):
             return self.do_try(st, path)
         if isinstance(st, ast.With):
